@@ -16,6 +16,8 @@ def firstSome : List Rule → Rule
 
 def rLit (k : LitKind) (sc : List Char → Option (Str × List Char)) : Rule :=
   fun cs => (sc cs).map fun p => (.lit k p.1, p.2)
+/-- the two BOOLEAN rules: a match that is not `true` / `false` in an ASCII letter case is an identifier (`boolOrIdent`) -/
+def rBool (env : CharEnv) (w : List Char) : Rule := fun cs => (scanWord env w cs).map fun p => (boolOrIdent p.1, p.2)
 def rNull (env : CharEnv) : Rule := fun cs => (scanWord env "null".toList cs).map fun p => (.lit .null [], p.2)
 def rOp (t : Tok) (sc : List Char → Option (List Char)) : Rule := fun cs => (sc cs).map fun r => (t, r)
 def rMinus : Rule := fun cs => match cs with | '-' :: r => some (.uminus, r) | _ => none
@@ -35,7 +37,7 @@ def litRules (env : CharEnv) : List Rule :=
   [rLit .duration (scanDuration env), rLit .str scanString, rLit .geo (scanGeography env), rLit .guid (scanGuid env),
    rLit .datetime (scanDateTime env), rLit .date (scanDatePart env), rLit .time (scanTime env),
    rLit .float (scanDecimal env), rLit .int (scanInteger env),
-   rLit .bool (scanWord env "true".toList), rLit .bool (scanWord env "false".toList), rNull env]
+   rBool env "true".toList, rBool env "false".toList, rNull env]
 
 def restRules (env : CharEnv) : List Rule :=
   [rOp (.arith .add) (scanOp env "add".toList), rOp (.arith .sub) (scanOp env "sub".toList),
@@ -58,7 +60,7 @@ macro "step" X:term : tactic =>
 
 theorem lexOne_eq (env : CharEnv) (cs : List Char) : lexOne env cs = firstSome (rules env) cs := by
   unfold lexOne
-  simp only [rules, litRules, restRules, List.cons_append, List.nil_append, firstSome, rLit, rNull, rOp, rKw, rIdent, rWs]
+  simp only [rules, litRules, restRules, List.cons_append, List.nil_append, firstSome, rLit, rBool, rNull, rOp, rKw, rIdent, rWs]
   step (scanDuration env cs)
   step (scanString cs)
   step (scanGeography env cs)
@@ -167,6 +169,10 @@ theorem good_rLit {s s' tl : List Char} {t : Tok} (k : LitKind) (sc : List Char 
     (h : sc s' = ext (sc s) tl) : Good s s' tl t (rLit k sc) := by
   apply good_ext; simp only [rLit, h]; cases sc s <;> rfl
 
+theorem good_rBool {env : CharEnv} {s s' tl : List Char} {t : Tok} (w : List Char)
+    (h : scanWord env w s' = ext (scanWord env w s) tl) : Good s s' tl t (rBool env w) := by
+  apply good_ext; simp only [rBool, h]; cases scanWord env w s <;> rfl
+
 theorem good_rNull {env : CharEnv} {s s' tl : List Char} {t : Tok}
     (h : scanWord env "null".toList s' = ext (scanWord env "null".toList s) tl) : Good s s' tl t (rNull env) := by
   apply good_ext; simp only [rNull, h]; cases scanWord env "null".toList s <;> rfl
@@ -249,8 +255,8 @@ theorem litRules_ext (hdot : env.isWord '.' = false) {c d : Char} {s0 rest : Lis
     · exact good_none (by simp [rLit, scanTime_head h2 h3]) (by simp [rLit, scanTime_head h2 h3])
   · exact good_rLit _ _ (scanDecimal_ext hd _ _)
   · exact good_rLit _ _ (scanInteger_ext hd _ _)
-  · exact good_rLit _ _ (scanWord_ext hd hdot _ (by decide) _ _)
-  · exact good_rLit _ _ (scanWord_ext hd hdot _ (by decide) _ _)
+  · exact good_rBool _ (scanWord_ext hd hdot _ (by decide) _ _)
+  · exact good_rBool _ (scanWord_ext hd hdot _ (by decide) _ _)
   · exact good_rNull (scanWord_ext hd hdot _ (by decide) _ _)
 
 
@@ -383,7 +389,9 @@ def Src (env : CharEnv) (cs : List Char) (r : List Char) : Tok → Prop
   | .lit .int v => scanInteger env cs = some (v, r)
   | .lit .bool v => scanWord env "true".toList cs = some (v, r) ∨ scanWord env "false".toList cs = some (v, r)
   | .lit .null v => v = [] ∧ ∃ m, scanWord env "null".toList cs = some (m, r)
-  | .ident i => scanIdent env cs = some (i, r)
+  | .ident i => scanIdent env cs = some (i, r) ∨
+      (boolOrIdent i.name = .ident i ∧
+        (scanWord env "true".toList cs = some (i.name, r) ∨ scanWord env "false".toList cs = some (i.name, r)))
   | .any => ∃ m, scanWord env "any".toList cs = some (m, r)
   | .all => ∃ m, scanWord env "all".toList cs = some (m, r)
   | _ => True
@@ -397,6 +405,16 @@ theorem rules_src {cs r : List Char} {t : Tok} {f : Rule} (hf : f ∈ rules env)
     | (simp only [rLit, rNull, rOp, rKw, rIdent, rWs, Option.map_eq_some_iff, Prod.mk.injEq] at h
        obtain ⟨a, ha, rfl, rfl⟩ := h
        first | exact ha | exact Or.inl ha | exact Or.inr ha | exact ⟨rfl, _, ha⟩ | exact ⟨_, ha⟩ | trivial)
+    | (simp only [rBool, Option.map_eq_some_iff, Prod.mk.injEq] at h
+       obtain ⟨a, ha, hb, rfl⟩ := h
+       by_cases hc : (a.1.map asciiLower == "true".toList || a.1.map asciiLower == "false".toList) = true
+       · have hb' : t = .lit .bool a.1 := by rw [← hb]; unfold boolOrIdent; rw [if_pos hc]
+         subst hb'
+         first | exact Or.inl ha | exact Or.inr ha
+       · have hb0 : boolOrIdent a.1 = .ident ⟨a.1, []⟩ := by unfold boolOrIdent; rw [if_neg hc]
+         have hb' : t = .ident ⟨a.1, []⟩ := by rw [← hb, hb0]
+         subst hb'
+         first | exact Or.inr ⟨hb0, Or.inl ha⟩ | exact Or.inr ⟨hb0, Or.inr ha⟩)
     | (cases cs with
        | nil => simp [rMinus, rSingle] at h
        | cons c x =>
@@ -430,7 +448,7 @@ structure HeadFacts (env : CharEnv) (c : Char) : Prop where
 
 theorem litRules_head {env : CharEnv} {c : Char} (x : List Char) (hf : HeadFacts env c)
     (hq : c ≠ '\'') (hp : c ≠ '+') (hm : c ≠ '-') : firstSome (litRules env) (c :: x) = none := by
-  simp [litRules, firstSome, rLit, rNull, scanDuration_head hf.d, scanString_head hq, scanGeography_head hf.g,
+  simp [litRules, firstSome, rLit, rBool, rNull, scanDuration_head hf.d, scanString_head hq, scanGeography_head hf.g,
     scanGuid_head hf.hex, scanDateTime_head hf.digit, scanDatePart_head hf.digit, scanTime_head hf.r01 hf.ne2,
     scanDecimal_head hp hm hf.digit, scanInteger_head hp hm hf.digit, scanWord_head hf.t, scanWord_head hf.f,
     scanWord_head hf.n]
